@@ -181,6 +181,7 @@ structure Geo (size bs filled : Nat) : Prop where
   odd : filled % 2 = 1
   fits : filled * 2 ^ bs ≤ 2 ^ 64
   le_blocks : filled ≤ Tree.blocks ⟨size, bs⟩
+  ge_blocks : Tree.blocks ⟨size, bs⟩ - 1 ≤ filled
 
 theorem nextPow2Aux_spec (fuel i x : Nat) (h : x ≤ 2 ^ (i + fuel)) :
     ∃ j, i ≤ j ∧ nextPow2Aux fuel (2 ^ i) x = 2 ^ j ∧ x ≤ 2 ^ j ∧ (j = i ∨ 2 ^ (j - 1) < x) := by
@@ -214,16 +215,22 @@ theorem nodeOf_zero_left (h : Nat) : nodeOf 0 h = 2 ^ h - 1 := by simp [nodeOf]
 /-- the shifted root is node `(0, h)` of the shifted tree and exists -/
 theorem shifted_root (size bs : Nat) (hs : size ≤ 2 ^ 63) :
     ∃ h, h ≤ 63 ∧ (Tree.shifted ⟨size, bs⟩).1 = nodeOf 0 h ∧
-      (Tree.shifted ⟨size, bs⟩).1 < (Tree.shifted ⟨size, bs⟩).2 := by
+      (Tree.shifted ⟨size, bs⟩).1 < (Tree.shifted ⟨size, bs⟩).2 ∧
+      Tree.blocks ⟨size, bs⟩ ≤ 2 ^ (h + 1) := by
   have hdiv := Nat.div_le_self size (2 ^ (10 + bs))
-  unfold Tree.shifted
-  simp only
+  unfold Tree.shifted Tree.blocks Tree.blocksRaw
+  simp only [Nat.add_comm bs 10]
   generalize hn : divCeil2 (max (size / 2 ^ (10 + bs) + if size % 2 ^ (10 + bs) ≠ 0 then 1 else 0) 1) = n
   have hn1 : 1 ≤ n ∧ n ≤ 2 ^ 63 := by
     rw [← hn]; unfold divCeil2
     split <;> omega
   obtain ⟨j, hj, e, hle, hmin⟩ := nextPow2_spec hn1.2
-  refine ⟨j, hj, by rw [e, nodeOf_zero_left], ?_⟩
+  have hcov : max (size / 2 ^ (10 + bs) + if size % 2 ^ (10 + bs) ≠ 0 then 1 else 0) 1
+      ≤ 2 ^ (j + 1) := by
+    rw [Nat.pow_succ]
+    rw [← hn] at hle; unfold divCeil2 at hle
+    omega
+  refine ⟨j, hj, by rw [e, nodeOf_zero_left], ?_, hcov⟩
   rw [e]
   have hp := two_pow_pos' j
   rcases hmin with rfl | hmin
@@ -239,11 +246,29 @@ theorem rootLevel_spec (size bs : Nat) (hs : size ≤ 2 ^ 63) :
     rootLevel ⟨size, bs⟩ ≤ 63 ∧
     (Tree.shifted ⟨size, bs⟩).1 = nodeOf 0 (rootLevel ⟨size, bs⟩) ∧
     nodeOf 0 (rootLevel ⟨size, bs⟩) < (Tree.shifted ⟨size, bs⟩).2 := by
-  obtain ⟨h, hh, e, hlt⟩ := shifted_root size bs hs
+  obtain ⟨h, hh, e, hlt, _⟩ := shifted_root size bs hs
   have : rootLevel ⟨size, bs⟩ = h := by
     unfold rootLevel; rw [e, levelOf_nodeOf (by omega)]
   rw [this, ← e]
   exact ⟨hh, rfl, hlt⟩
+
+/-- the root's chunk range covers the whole blob -/
+theorem rootLevel_covers (size bs : Nat) (hs : size ≤ 2 ^ 63) :
+    nChunks size ≤ endOf 0 (rootLevel ⟨size, bs⟩ + bs) := by
+  obtain ⟨h, hh, e, _, hb⟩ := shifted_root size bs hs
+  have : rootLevel ⟨size, bs⟩ = h := by
+    unfold rootLevel; rw [e, levelOf_nodeOf (by omega)]
+  rw [this]
+  apply Classical.byContradiction
+  intro hn
+  have h1 : endOf 0 (h + bs) = 2 ^ (h + 1) * 2 ^ bs := by
+    unfold endOf; rw [← Nat.pow_add]; simp; congr 1; omega
+  have hpos : 0 < 2 ^ (h + 1) * 2 ^ bs := Nat.mul_pos (two_pow_pos' _) (two_pow_pos' _)
+  have h2 := (Offsets.lt_nChunks_iff size (2 ^ (h + 1) * 2 ^ bs) hpos).1 (by omega)
+  have e10 : (2 : Nat) ^ (bs + 10) = 2 ^ bs * 1024 := by rw [Nat.pow_add]
+  have h3 := (Offsets.lt_blocks_iff size bs (2 ^ (h + 1)) (two_pow_pos' _)).2
+    (by rw [e10, ← Nat.mul_assoc]; exact h2)
+  omega
 
 theorem shifted_geo (size bs : Nat) (hs : size ≤ 2 ^ 63) (hbs : bs ≤ 10) :
     Geo size bs (Tree.shifted ⟨size, bs⟩).2 := by
@@ -251,7 +276,7 @@ theorem shifted_geo (size bs : Nat) (hs : size ≤ 2 ^ 63) (hbs : bs ≤ 10) :
   have hm := Offsets.blocks_mul_le size bs hs hbs
   have hb := Offsets.blocks_pos size bs
   have hle : (Tree.shifted ⟨size, bs⟩).2 ≤ Tree.blocks ⟨size, bs⟩ := by omega
-  refine ⟨h3, ?_, hle⟩
+  refine ⟨h3, ?_, hle, h1⟩
   have : (Tree.shifted ⟨size, bs⟩).2 * 2 ^ bs ≤ (Tree.blocks ⟨size, bs⟩ - 1 + 1) * 2 ^ bs :=
     Nat.mul_le_mul_right _ (by omega)
   omega
@@ -316,9 +341,83 @@ theorem mid_lt (g : Geo size bs filled) {k L : Nat} (h : nodeOf k (L + 1) < fill
 
 end Geo
 
+/-- `split(ranges, node)` of the model in coordinates -/
+theorem splitNode_eq {k L : Nat} (bs : Nat) (rs : Ranges) (h : L + bs ≤ 64) :
+    Ranges.splitNode rs (nodeOf k (L + bs)) = (lq bs L k rs, rq bs L k rs) := by
+  unfold Ranges.splitNode lq rq
+  rw [C18.chunkRange_spec h, C18.mid_spec]
+
 /-- the leftmost leaf of the complete subtree `(k, L)` is its smallest id -/
 theorem startOf_le_nodeOf (k L : Nat) : startOf k L ≤ nodeOf k L := by
   have hp := two_pow_pos' L
   rw [startOf_eq, nodeOf_eq]; omega
+
+/-! ## an induction principle following the recursion of `planPre` -/
+
+/-- To prove `P L k rs (planPre … L k rs)` for all `L k rs` it suffices to treat the seven
+shapes of the definition (each with the side conditions that select it). -/
+theorem planPre_induct {size bs ml filled root : Nat}
+    {P : Nat → Nat → Ranges → List Chunk → Prop}
+    (nil : ∀ L k, P L k [] [])
+    (gone : ∀ k rs, rs ≠ [] → filled ≤ nodeOf k 0 → P 0 k rs [])
+    (skip : ∀ L k rs, rs ≠ [] → filled ≤ nodeOf k (L + 1) →
+      P L (2 * k) rs (planPre size bs ml filled root L (2 * k) rs) →
+      P (L + 1) k rs (planPre size bs ml filled root L (2 * k) rs))
+    (qleaf : ∀ L k rs, rs ≠ [] → nodeOf k L < filled → queryLeaf bs ml L rs = true →
+      P L k rs [nodeLeaf size bs root L k rs])
+    (half : ∀ k rs, rs ≠ [] → nodeOf k 0 < filled → queryLeaf bs ml 0 rs = false →
+      size ≤ toBytes (midOf k bs) → P 0 k rs [nodeLeaf size bs root 0 k rs])
+    (group : ∀ k rs, rs ≠ [] → nodeOf k 0 < filled → queryLeaf bs ml 0 rs = false →
+      toBytes (midOf k bs) < size →
+      P 0 k rs (nodeParent bs root 0 k rs ::
+        ((if (lq bs 0 k rs).isEmpty then [] else [leftLeaf bs k rs]) ++
+         (if (rq bs 0 k rs).isEmpty then [] else [rightLeaf size bs k rs]))))
+    (inner : ∀ L k rs, rs ≠ [] → nodeOf k (L + 1) < filled → queryLeaf bs ml (L + 1) rs = false →
+      P L (2 * k) (lq bs (L + 1) k rs)
+        (planPre size bs ml filled root L (2 * k) (lq bs (L + 1) k rs)) →
+      P L (2 * k + 1) (rq bs (L + 1) k rs)
+        (planPre size bs ml filled root L (2 * k + 1) (rq bs (L + 1) k rs)) →
+      P (L + 1) k rs (nodeParent bs root (L + 1) k rs ::
+        (planPre size bs ml filled root L (2 * k) (lq bs (L + 1) k rs) ++
+          planPre size bs ml filled root L (2 * k + 1) (rq bs (L + 1) k rs))))
+    (L k : Nat) (rs : Ranges) : P L k rs (planPre size bs ml filled root L k rs) := by
+  induction L generalizing k rs with
+  | zero =>
+    by_cases hne : rs = []
+    · subst hne; rw [planPre_nil]; exact nil 0 k
+    by_cases hlt : nodeOf k 0 < filled
+    · by_cases hq : queryLeaf bs ml 0 rs = true
+      · rw [planPre_queryLeaf hne hlt hq]; exact qleaf 0 k rs hne hlt hq
+      · have hq : queryLeaf bs ml 0 rs = false := by simpa using hq
+        by_cases hh : toBytes (midOf k bs) < size
+        · rw [planPre_zero_parent hne hlt hq hh]; exact group k rs hne hlt hq hh
+        · rw [planPre_zero_half hne hlt hq (by omega)]; exact half k rs hne hlt hq (by omega)
+    · rw [planPre_zero_skip (by omega)]; exact gone k rs hne (by omega)
+  | succ L ih =>
+    by_cases hne : rs = []
+    · subst hne; rw [planPre_nil]; exact nil (L + 1) k
+    by_cases hlt : nodeOf k (L + 1) < filled
+    · by_cases hq : queryLeaf bs ml (L + 1) rs = true
+      · rw [planPre_queryLeaf hne hlt hq]; exact qleaf (L + 1) k rs hne hlt hq
+      · have hq : queryLeaf bs ml (L + 1) rs = false := by simpa using hq
+        rw [planPre_succ hne hlt hq]
+        exact inner L k rs hne hlt hq (ih _ _) (ih _ _)
+    · rw [planPre_skip (by omega)]; exact skip L k rs hne (by omega) (ih _ _)
+
+/-- an existing subtree with a non-empty sub-query has a non-empty plan -/
+theorem planPre_ne_nil {size bs ml filled root : Nat} (L k : Nat) (rs : Ranges) :
+    rs ≠ [] → startOf k L < filled → planPre size bs ml filled root L k rs ≠ [] := by
+  refine planPre_induct (size := size) (bs := bs) (ml := ml) (filled := filled) (root := root)
+    (P := fun L k rs p => rs ≠ [] → startOf k L < filled → p ≠ []) ?_ ?_ ?_ ?_ ?_ ?_ ?_ L k rs
+  · intro L k h; exact absurd rfl h
+  · intro k rs _ hge _ hs
+    have : startOf k 0 = nodeOf k 0 := by rw [Offsets.startOf_zero, Offsets.nodeOf_zero]
+    omega
+  · intro L k rs hne _ ih _ hs
+    exact ih hne (by rw [Bits.startOf_left]; exact hs)
+  · intro L k rs _ _ _ _ _; simp
+  · intro k rs _ _ _ _ _ _; simp
+  · intro k rs _ _ _ _ _ _; simp
+  · intro L k rs _ _ _ _ _ _ _; simp
 
 end Bao.PlanPre
